@@ -221,6 +221,9 @@ def register(ctx, it, only_send=False):
             return _replay.run_native(script, {'obligation': ob.name}, timeout=300)
         return fn
     ctx.replayers.setdefault('dimsemessages.*', _replayer('fragments.py'))
+    if ctx.pid == 'C06':
+        ctx.native_crosschecks.append(('fragments.py', {'obligation': ''}, 'fragmentation of real messages over a grid of '
+                                       'stream and maximum lengths, bytes and file'))
     ctx.replayers.setdefault('asceprovider.Association.send*', _replayer('fragments.py'))
     ctx.assumptions += [
         'maximum PDU lengths range over {0} u [7, 2^32-1]; 0 = no limit',
